@@ -9,8 +9,10 @@ using namespace V;
 static void run(Ctx& c) {
     Rng& r = c.rng;
     ScriptOpts so; so.minSteps = 30; so.maxSteps = c.thorough ? 150 : 90; so.maxSetPoints = 256; so.maxRelStates = 16;
+    so.wideShapes = true;
     if (r.chance(1, 5)) { so.minSteps = 150; so.maxSteps = 300; so.maxSetPoints = 64; }   // heavy churn on a small domain
     Script S = genScript(r, so);
+    if (*std::max_element(S.shape.sizes.begin(), S.shape.sizes.end()) >= 10) c.count("wide_variable_shapes");
     size_t nf = S.forests.size();
     Config ref; ref.st.assign(nf, 0); ref.mm.assign(nf, 1); ref.del.assign(nf, 0);   // defaults: either / array+grid / optimistic
     ExecOpts eo; eo.prop = "C12"; eo.auditEvery = 20; eo.canon = true; eo.reevalEvery = 15;
